@@ -195,7 +195,7 @@ def parse_classes(text, fname, classes, outer=None):
     return classes
 
 
-HEAD_RE = re.compile(r"((?:[A-Za-z_]\w*(?:<[^<>]*>)?\s*::\s*)*(?:~\s*)?[A-Za-z_]\w*|operator\s*[^\s(]+)\s*\(((?:[^()]|\([^()]*\))*)\)"
+HEAD_RE = re.compile(r"((?:[A-Za-z_]\w*(?:<[^<>]*>)?\s*::\s*)*(?:operator\s*(?:\(\s*\)|[^\s(\w][^\s(]*)|(?:~\s*)?[A-Za-z_]\w*))\s*\(((?:[^()]|\([^()]*\))*)\)"
                      r"\s*(?:const\b)?\s*(?:throw\s*\([^)]*\))?\s*(?::[^;{}]*)?$")
 CLS_HEAD_RE = re.compile(r"\b(?:class|struct)\s+(?:[A-Z][A-Z0-9_]+\s+)?([A-Za-z_]\w*)\s*(?::[^;{}()]*)?$")
 NOT_FUNCS = {"if", "for", "while", "switch", "catch", "return", "sizeof", "else", "do", "defined", "assert"}
@@ -368,13 +368,25 @@ def main():
         for m in re.finditer(r"\bconst_cast\s*<\s*([^>]+?)\s*>", t):
             fn = enclosing(spans[f], m.start()) or "?"
             tgt = re.sub(r"\s+", "", m.group(1))
-            e = {"kind": "constCast", "scope": rel, "name": "%s|%s" % (fn, tgt), "funcs": [fn], "where": "%s:%d" % (rel, t.count("\n", 0, m.start()) + 1)}
+            nm = "%s|%s" % (fn, tgt)
+            # a const overload that forwards to the non-const one (`const_cast<X*>(this)->f()`) matters only if some const
+            # member function calls it: record the const callers in the name, so that a new one is a new, unclassified entry
+            short = fn.split("::")[-1]
+            if re.search(r"const_cast\s*<[^>]*>\s*\(\s*this\s*\)\s*->\s*%s\s*\(" % re.escape(short), t[m.start():m.start() + 200]):
+                callers = set()
+                for n2, a2, b2 in spans[f]:
+                    ob2 = t.find("{", a2)
+                    if n2.split("::")[-1] != short and re.search(r"\)\s*const\b", t[a2:ob2]) and re.search(r"(?<![\w.>])%s\s*\(" % re.escape(short), t[ob2:b2]):
+                        callers.add(n2.split("::")[-1])
+                nm += "|const-callers:" + (",".join(sorted(callers)) or "none")
+            e = {"kind": "constCast", "scope": rel, "name": nm, "funcs": [fn], "where": "%s:%d" % (rel, t.count("\n", 0, m.start()) + 1)}
             if not any(x["kind"] == "constCast" and x["scope"] == e["scope"] and x["name"] == e["name"] for x in entries):
                 entries.append(e)
         for name, a, b in spans[f]:
             body = t[a:b]
-            for m in re.finditer(r"^\s+static\s+(?!const\b)([^;=(]*?[\s\*&])([A-Za-z_]\w*)\s*(?:\[[^\]]*\]\s*)*(?:=|;|\{)", body, re.M):
-                if re.search(r"\bconst\b", m.group(1)) and "*" not in m.group(1):
+            for m in re.finditer(r"^\s+static\s+([^;=(]*?[\s\*&])([A-Za-z_]\w*)\s*(?:\[[^\]]*\]\s*)*(?:=|;|\{)", body, re.M):
+                # `static const T x` and `static T* const p` are constants; `static const T* p` is a variable
+                if (re.search(r"\bconst\b", m.group(1)) and "*" not in m.group(1)) or re.search(r"\*\s*const\s*$", m.group(1).strip()):
                     continue
                 entries.append({"kind": "localStatic", "scope": rel, "name": "%s|%s" % (name, m.group(2)), "funcs": [name],
                                 "where": "%s:%d" % (rel, t.count("\n", 0, a + m.start()) + 1)})
@@ -430,6 +442,87 @@ def main():
                              "funcs": [name, ptrs[pm] + "::" + meth], "where": "%s:%d" % (os.path.relpath(f, SRC), t.count("\n", 0, ob + m.start()) + 1)}
                         if not any(x["kind"] == e["kind"] and x["scope"] == e["scope"] and x["name"] == e["name"] for x in entries):
                             entries.append(e)
+    # 2c. containers with a lazily allocated list head (XalanList, and XalanMap / XalanSet which are built on it) that are
+    #     data members of classes whose instances are parts of a shared object.  "Parts of a shared object" is the
+    #     STRICT closure of the roots: member types (incl. typedefs), bases, nested classes, and derived classes only of
+    #     the polymorphic families the roots actually store (stylesheet elements, AVT parts, source-tree / wrapper nodes).
+    tdtext = {}     # per header: typedef name -> texts (typedef names such as `iterator`, `ListType` recur across files)
+    for f, t in texts.items():
+        for m in re.finditer(r"\btypedef\s+([^;{}]+?)\s+([A-Za-z_]\w*)\s*;", t):
+            tdtext.setdefault(f, {}).setdefault(m.group(2), set()).add(m.group(1))
+
+    def expands_to_lazy(typ, f, depth=0):
+        if re.search(r"\bXalan(Map|List|Set)\s*<", typ):
+            return True
+        if depth > 3 or re.search(r"iterator\s*$|_type\s*$", typ.strip()):
+            return False
+        for x in IDENT.findall(typ):
+            for tt in tdtext.get(f, {}).get(x, ()):
+                if expands_to_lazy(tt, f, depth + 1):
+                    return True
+        return False
+
+    FAMILIES = ("ElemTemplateElement", "AVTPart", "XalanSourceTreeElement", "XalanSourceTreeAttr", "XalanSourceTreeText",
+                "XalanQName", "XalanMatchPatternData", "NodeTester")
+    strict, swork = set(), list(ROOTS)
+    while swork:
+        c = swork.pop()
+        if c in strict or c not in classes:
+            continue
+        strict.add(c)
+        cl = classes[c]
+        nxt = [b for b in cl["bases"]] + list(cl["nested"])
+        if c in FAMILIES or any(b in FAMILIES for b in cl["bases"]) or c.startswith("Elem"):
+            nxt += list(derived.get(c, ()))
+        for mem in cl["members"]:
+            if mem["static"]:
+                continue
+            ids = set(type_refs(mem["type"]))
+            for x in IDENT.findall(mem["type"]):
+                if x not in known:
+                    ids |= typedefs.get(x, set())
+            nxt += [x for x in ids if not x.endswith("Context") and not x.endswith("ContextDefault")]
+        swork += [x for x in nxt if x not in strict]
+    strict -= {"XalanMap", "XalanList", "XalanSet", "XalanVector", "XalanDeque", "XalanDOMString", "XalanMemMgrAutoPtr", "XalanAutoPtr"}
+    containers = []
+    for c in sorted(strict):
+        cl = classes[c]
+        h = os.path.join(SRC, cl["file"])
+        for mem in cl["members"]:
+            if mem["static"] or not expands_to_lazy(mem["type"], h):
+                continue
+            const_users, forced = set(), False
+            for f in (h, re.sub(r"\.hpp$", ".cpp", h)):
+                t = texts.get(f)
+                if t is None:
+                    continue
+                for name, a0, b0 in spans[f]:
+                    if not (name.startswith(c + "::") or ("::" + c + "::") in name):
+                        continue
+                    ob = t.find("{", a0)
+                    headtxt, body = t[a0:ob], t[ob:b0]
+                    short = name.split("::")[-1]
+                    if not re.search(r"\b%s\b" % re.escape(mem["name"]), headtxt + body):
+                        continue
+                    touches_head = re.search(r"\b%s\s*\.\s*(end|begin)\s*\(\s*\)" % re.escape(mem["name"]), headtxt + body)
+                    if short == c or short == "postConstruction":
+                        # constructor / postConstruction (both run before the object is shared): the head exists once they
+                        # call the non-const begin()/end(), directly or in a member function they call
+                        if touches_head:
+                            forced = True
+                        else:
+                            for callee in re.findall(r"\b([A-Za-z_]\w*)\s*\(\s*\)\s*;", body):
+                                for n2, a2, b2 in spans[f]:
+                                    if n2 == c + "::" + callee and re.search(r"\b%s\s*\.\s*(end|begin)\s*\(\s*\)" % re.escape(mem["name"]), t[a2:b2]) \
+                                            and not re.search(r"\)\s*const\b", t[a2:t.find("{", a2)]):
+                                        forced = True
+                        continue
+                    if re.search(r"\)\s*const\b", headtxt) and re.search(r"\b%s\b" % re.escape(mem["name"]), body):
+                        const_users.add(name)
+            containers.append({"kind": "lazyContainer", "scope": c, "name": mem["name"],
+                               "funcs": (["@forced"] if forced else []) + sorted(const_users), "where": cl["file"], "type": mem["type"]})
+    entries += containers
+
     # 4. process-wide non-const state: static data members (any class) + file-scope statics in .cpp
     for c in sorted(classes):
         for mem in classes[c]["members"]:
@@ -491,7 +584,34 @@ def main():
         lines.append("  { key := %d,\n    kind := .%s, scope := %s, name := %s,\n    funcs := [%s] }%s" % (
             int.from_bytes(("%s|%s|%s" % (e["kind"], e["scope"], e["name"])).encode("utf-8"), "big"),
             e["kind"], q(e["scope"]), q(e["name"]), ", ".join(q(x) for x in e["funcs"]), "," if i + 1 < len(entries) else ""))
-    lines += ["]", "", "end XalanModel.Generated.C07_Share", ""]
+    lines += ["]", ""]
+    # the hand-kept classification (translate/c07_allow.tsv) with its keys as numerals
+    GUARDS = {"perExecution", "constructionOnly", "wrapperPrebuilt", "pooledStringMutex", "isMutex", "initTerminate",
+              "installOnly", "neverWritten", "castNoWrite", "ownerOnly", "lazyListHead", "headForced", "noConstLookup",
+              "emptyChecked", "listConstNoAlloc", "noConstCaller"}
+    allow_rows, aliases = [], []
+    for ln, line in enumerate(open(os.path.join(HERE, "c07_allow.tsv"), encoding="utf-8"), 1):
+        line = line.rstrip("\n")
+        if not line.strip() or line.startswith("#"):
+            continue
+        cols = line.split("\t")
+        if len(cols) < 2 or cols[1] not in GUARDS:
+            print("c07_share: c07_allow.tsv:%d: expected `key<TAB>guard[<TAB>alias<TAB>note]` with a known guard: %r" % (ln, line[:120]))
+            return 1
+        allow_rows.append((cols[0], cols[1]))
+        if len(cols) > 2 and cols[2] not in ("", "-"):
+            aliases.append((cols[2], cols[0]))
+
+    def num(text):
+        return int.from_bytes(text.encode("utf-8"), "big")
+    lines += ["/-- classification `kind|scope|name` (as a numeral) ↦ guard, from translate/c07_allow.tsv -/",
+              "def allow : List (Nat × Guard) := ["]
+    for i, (k, gd) in enumerate(allow_rows):
+        lines.append("  -- %s\n  (%d, .%s)%s" % (k, num(k), gd, "," if i + 1 < len(allow_rows) else ""))
+    lines += ["]", ""]
+    for al, k in aliases:
+        lines += ["/-- key of `%s` -/" % k, "def k_%s : Nat := %d" % (al, num(k)), ""]
+    lines += ["end XalanModel.Generated.C07_Share", ""]
     os.makedirs(common.GEN, exist_ok=True)
     new = "\n".join(lines)
     old = open(OUT).read() if os.path.exists(OUT) else None
@@ -499,7 +619,8 @@ def main():
         with open(OUT, "w") as h:
             h.write(new)
     with open(os.path.join(common.GEN, "C07_Share.json"), "w") as h:
-        json.dump({"reachable": {c: why.get(c, "") for c in rl}, "entries": entries}, h, indent=1)
+        json.dump({"reachable": {c: why.get(c, "") for c in rl}, "class_files": {c: classes[c]["file"] for c in rl},
+                   "strict": sorted(strict), "entries": entries}, h, indent=1)
     kinds = {}
     for e in entries:
         kinds[e["kind"]] = kinds.get(e["kind"], 0) + 1
